@@ -170,12 +170,12 @@ func init() {
 			if tier == "quick" {
 				return map[string]any{"depth": "5 (empty), 4 (sparse-3)"}
 			}
-			return map[string]any{"depth": "6 (empty), 4 (sparse-3), 3 (block-edge)"}
+			return map[string]any{"depth": "7 (empty), 5 (sparse-3), 3 (block-edge)"}
 		},
 		Units: func(tier string) (units []eng.Unit) {
 			specs := []c16Spec{{"empty", 5}, {"sparse-3", 4}}
 			if tier != "quick" {
-				specs = []c16Spec{{"empty", 6}, {"sparse-3", 4}, {"block-edge", 3}}
+				specs = []c16Spec{{"empty", 7}, {"sparse-3", 5}, {"block-edge", 3}}
 			}
 			for _, s := range specs {
 				s := s
